@@ -240,6 +240,15 @@ def oracle_cg(case):
     bad = _errA_increased(A, b, im["x0"], x, cond)
     if bad:
         return bad
+    if M is None:
+        # theorem C14_cg_rate: ||e_k||_A^2 <= (1 - m/L)^k ||e_0||_A^2 with m, L the extreme eigenvalues of the HPD A
+        ev = np.linalg.eigvalsh((A + A.conj().T) / 2)
+        xs = np.linalg.solve(A, b)
+        x0v = np.zeros_like(xs) if im["x0"] is None else im["x0"]
+        eA = lambda v: float(np.real(np.vdot(xs - v, A @ (xs - v))))  # noqa: E731
+        bound = (1.0 - float(ev[0]) / float(ev[-1])) ** im["num_iter"] * eA(x0v)
+        if eA(x) > bound * (1 + 1e-8) + 1e-20 * cond * (1.0 + bn * bn):
+            return {"A_norm_error_sq": eA(x), "rate_bound_(1-m/L)^k_e0": bound, "iterations": im["num_iter"], "x": tolist(x)}
     if im["num_iter"] < case["maxiter"] and math.sqrt(max(num, 0.0)) > thr + eps:
         return {"stopped_early": True, "num_iter": im["num_iter"], "true_sqrt_num": math.sqrt(max(num, 0.0)), "threshold": thr}
     if im["num_iter"] > case["maxiter"]:
@@ -962,6 +971,60 @@ def run_conv(ctx, model, case):
 
 
 # =============================================================================================
+# ConvATADSolver.__init__ argument checks (malformed stream)
+
+_CONV_ARGS = ["valid", "not-composed", "outer-not-sum", "inner-not-conv", "axis-tuple"]
+
+
+def gen_convargs(rng):
+    return {"kind": "convargs", "arg": _CONV_ARGS[int(rng.integers(0, len(_CONV_ARGS)))], "cplx": bool(rng.integers(0, 2)), "K": int(rng.integers(1, 3))}
+
+
+def run_convargs(ctx, model, case):
+    S = _setup()
+    jnp, solver, linop = S["jnp"], S["solver"], S["linop"]
+    dt = np.complex128 if case["cplx"] else np.float64
+    K, N = case["K"], 3
+    ishape = (K, N)
+    C = linop.CircularConvolve(jnp.array(np.ones((K, 2)), dtype=dt), input_shape=ishape, ndims=1, input_dtype=dt)
+    Sm = linop.Sum(input_shape=ishape, input_dtype=dt, axis=0)
+    D = linop.CircularConvolve(jnp.array(np.full(ishape, 2.0), dtype=np.complex128), input_shape=ishape, ndims=1, input_dtype=dt, h_is_dft=True)
+    arg = case["arg"]
+    try:
+        if arg == "valid":
+            A = Sm @ C
+        elif arg == "not-composed":
+            A = C
+        elif arg == "outer-not-sum":
+            A = linop.Diagonal(jnp.array(np.full(ishape, 2.0), dtype=dt)) @ C
+        elif arg == "inner-not-conv":
+            A = Sm @ linop.Diagonal(jnp.array(np.full(ishape, 2.0), dtype=dt))
+        else:
+            A = linop.Sum(input_shape=ishape, input_dtype=dt, axis=(0,)) @ C
+        from scico.linop import ComposedLinearOperator, Sum, CircularConvolve
+
+        comp = isinstance(A, ComposedLinearOperator)
+        desc = {"composed": comp, "outer_sum": bool(comp and isinstance(A.A, Sum)), "inner_conv": bool(comp and isinstance(A.B, CircularConvolve)),
+                "axis_int": bool(comp and isinstance(A.A, Sum) and isinstance(A.A.kwargs["axis"], int))}
+    except Exception as e:  # noqa: BLE001
+        raise common.Infra(f"convargs: could not build the argument {arg}: {e!r}")
+    try:
+        solver.ConvATADSolver(A, D)
+        got = "ok"
+    except Exception as e:  # noqa: BLE001
+        got = _err(e)
+    try:
+        model.call("conv_validate", **desc)
+        want = "ok"
+    except ModelErr as e:
+        want = e.kind
+    ctx.count(f"convargs:{arg}:{got}")
+    ctx.case({"kind": "convargs", "arg": arg, "result": got}, None if got == "ok" else _key(case))
+    if got != want:
+        ctx.disagree("linsolve.convargs", case, got, want, oracle=lambda c: None)
+
+
+# =============================================================================================
 # rel_res
 
 
@@ -1333,14 +1396,14 @@ def oracle_kwhist(case):
 
 # =============================================================================================
 
-RUNNERS = {"kwhist": run_kwhist, "cg": run_cg, "jaxcg": run_jaxcg, "cgscan": run_cgscan, "lstsq": run_lstsq, "atad": run_atad, "atadargs": run_atadargs, "conv": run_conv, "relres": run_relres,
+RUNNERS = {"kwhist": run_kwhist, "cg": run_cg, "jaxcg": run_jaxcg, "cgscan": run_cgscan, "lstsq": run_lstsq, "atad": run_atad, "atadargs": run_atadargs, "convargs": run_convargs, "conv": run_conv, "relres": run_relres,
            "bisect": run_bisect, "golden": run_golden}
-GENS = {"kwhist": gen_kwhist, "cg": gen_cg, "jaxcg": gen_jaxcg, "cgscan": gen_cgscan, "lstsq": gen_lstsq, "atad": gen_atad, "atadargs": gen_atadargs, "conv": gen_conv, "relres": gen_relres,
+GENS = {"kwhist": gen_kwhist, "cg": gen_cg, "jaxcg": gen_jaxcg, "cgscan": gen_cgscan, "lstsq": gen_lstsq, "atad": gen_atad, "atadargs": gen_atadargs, "convargs": gen_convargs, "conv": gen_conv, "relres": gen_relres,
         "bisect": gen_bisect, "golden": gen_golden}
 ORACLES = {"kwhist": oracle_kwhist, "cg": oracle_cg, "jaxcg": oracle_jaxcg, "cgscan": oracle_cgscan, "lstsq": oracle_lstsq, "atad": oracle_atad, "conv": oracle_conv,
            "bisect": oracle_bisect, "golden": oracle_golden}
 # (quick, thorough) number of generated cases per stream
-BUDGET = {"kwhist": (8, 60), "cg": (120, 1500), "jaxcg": (40, 400), "cgscan": (25, 250), "lstsq": (30, 300), "atad": (90, 1000), "atadargs": (20, 60), "conv": (40, 400), "relres": (30, 200),
+BUDGET = {"kwhist": (8, 60), "cg": (120, 1500), "jaxcg": (40, 400), "cgscan": (25, 250), "lstsq": (30, 300), "atad": (90, 1000), "atadargs": (20, 60), "convargs": (10, 30), "conv": (40, 400), "relres": (30, 200),
           "bisect": (60, 700), "golden": (50, 600)}
 
 
